@@ -8,7 +8,7 @@ from typing import Any, Dict, List, Optional, Set, Tuple
 from .. import linexpr as lx
 from ..core import AnalysisError, Report
 from ..linexpr import Env, py_ir, to_lin
-from ..pyfacts import Repo, attribute_copies, cc, cn, element_rejections, inline_adjacent_temps, normalize_sorted_sweeps, eval_int_expr, membership_searches, normalize_indexed_loops, inline_module_constants, expand_private_calls, normalize_counting_whiles, inline_block, inline_predicates, canon_cond, push_not, calls, dotted, fold, norm, raise_guards, raised_class, walk_no_nested
+from ..pyfacts import Repo, resolve_names, attribute_copies, cc, cn, element_rejections, inline_adjacent_temps, normalize_sorted_sweeps, eval_int_expr, membership_searches, normalize_indexed_loops, inline_module_constants, expand_private_calls, normalize_counting_whiles, inline_block, inline_predicates, canon_cond, push_not, calls, dotted, fold, norm, raise_guards, raised_class, walk_no_nested
 
 W = 'flipjump/fjm/fjm_writer.py'
 R = 'flipjump/fjm/fjm_reader.py'
@@ -96,8 +96,18 @@ def rule_formats(rep: Report, repo: Repo) -> None:
     for f, s in zip(fmts, sizes):
         rep.check(struct.calcsize(fmts[f]) == sizes[s] and fmts[f].startswith('<'), 'C06.FORMATS', f'consts:{f}',
                   f'{fmts[f]!r}: calcsize {struct.calcsize(fmts[f])} vs {s}={sizes[s]}', K)
-    rep.check(fmts['_header_base_format'] == '<HHQQ' and fmts['_header_extension_format'] == '<QL'
-              and fmts['_segment_format'] == '<QQQQ', 'C06.FORMATS', 'consts:documented-layout', str(fmts), K,
+    def expand(fmt: Any) -> str:
+        # a struct format with repeat counts written out ('<2H2Q' is '<HHQQ'); 's' / 'p' counts are lengths and stay
+        import re as _re
+        if not isinstance(fmt, str):
+            return '?'
+        head = fmt[:1] if fmt[:1] in '<>=!@' else ''
+        out = head
+        for cnt, code in _re.findall(r'(\d*)([a-zA-Z?])', fmt[len(head):].replace(' ', '')):
+            out += (cnt + code) if code in 'sp' else code * (int(cnt) if cnt else 1)
+        return out
+    rep.check(expand(fmts['_header_base_format']) == '<HHQQ' and expand(fmts['_header_extension_format']) == '<QL'
+              and expand(fmts['_segment_format']) == '<QQQQ', 'C06.FORMATS', 'consts:documented-layout', str(fmts), K,
               expected='u16 magic, u16 width, u64 version, u64 #segments / u64 flags, u32 reserved / 4 x u64')
     for rel, side, fname in ((W, 'writer', 'pack'), (R, 'reader', 'unpack')):
         for c in [c for c in calls(repo.mod(rel)) if dotted(c.func) in (fname, f'struct.{fname}')]:
@@ -316,7 +326,10 @@ def rule_lzma(rep: Report, repo: Repo) -> None:
              'dictionary at least as large as the encoder\'s for every preset the Writer accepts (raw streams do not record it)', 4)
     cw = [c for c in calls(repo.func(W, 'Writer._compress_data')) if dotted(c.func) == 'lzma.compress']
     cr = [c for c in calls(repo.func(R, 'Reader._decompress_data')) if dotted(c.func) == 'lzma.decompress']
-    kw = lambda c: {k.arg: norm(k.value) for k in c.keywords}
+    wfn_, rfn_ = repo.func(W, 'Writer._compress_data'), repo.func(R, 'Reader._decompress_data')
+    def kw(c: ast.Call) -> Dict[str, str]:          # keyword values read through single-definition locals (also call-valued ones)
+        owner = wfn_ if any(x is c for x in ast.walk(wfn_)) else rfn_
+        return {k.arg: norm(resolve_names(owner, k.value, allow_calls=True)) for k in c.keywords if k.arg}
     rep.check(bool(cw) and kw(cw[0]).get('format') == '_LZMA_FORMAT' and kw(cw[0]).get('filters', '').startswith('_lzma_compression_filters('),
               'C06.LZMA', 'writer', str(kw(cw[0]) if cw else None), W)
     rep.check(bool(cr) and kw(cr[0]) == {'format': '_LZMA_FORMAT', 'filters': '_LZMA_DECOMPRESSION_FILTERS'}, 'C06.LZMA', 'reader',
@@ -462,12 +475,12 @@ def rule_overlap(rep: Report, repo: Repo) -> None:
     for fn_name, s, l in (('Writer._validate_segment_addresses_not_overlapping', 'segment_start', 'segment_length'),
                           ('Writer._validate_segment_data_not_overlapping', 'data_start', 'data_length')):
         fn = repo.func(W, fn_name)
-        ends = {norm(st.targets[0]): norm(st.value) for st in ast.walk(fn) if isinstance(st, ast.Assign) and isinstance(st.targets[0], ast.Name)}
-        cs = [[norm(a) for a in c.args] for c in calls(fn) if dotted(c.func) == 'self._is_collision']
-        new_end = [k for k in ends if k.startswith('new_') and k.endswith('_end')]
-        ok = len(cs) == 1 and len(new_end) == 1 and ends[new_end[0]] == f'new_{s} + new_{l} - 1' and \
-            any(v == f'{s} + {l} - 1' for k, v in ends.items() if not k.startswith('new_')) and \
-            cs[0][1] == [k for k, v in ends.items() if v == f'{s} + {l} - 1'][0] and cs[0][3] == new_end[0] and cs[0][0] == s and cs[0][2] == f'new_{s}'
+        # the collision test is applied to (start, start + length - 1) of the stored segment and of the new one: the four arguments of
+        # the one _is_collision call, read through the names the function gives to the inclusive ends
+        cs = [[norm(resolve_names(fn, a)) for a in c.args] for c in calls(fn) if dotted(c.func) == 'self._is_collision']
+        ends = cs[0] if cs else []
+        ok = len(cs) == 1 and len(cs[0]) == 4 and cs[0][0] == s and cs[0][1] == f'{s} + {l} - 1' and cs[0][2] == f'new_{s}' \
+            and cs[0][3] == f'new_{s} + new_{l} - 1'
         if 'data' in fn_name:
             # empty data ranges never collide: at the raise both lengths are known non-zero (early return / continue / a conjunct)
             from ..excflow import GuardFacts, dominating_guards
